@@ -574,22 +574,26 @@ def mkRouteA (id : RouteId) (m : Bytes) (t : Option Tmpl) : List (Route RouteId)
   | none => []
   | some t => if deepCount t.segs ≤ 1 then [{ id := id, httpMethod := m, verb := t.verb, run := matchTmpl t }] else []
 
-def enum {α} (xs : List α) : List (Nat × α) := (List.range xs.length).zip xs
+def enum {α} (xs : List α) : List (Nat × α) := xs.zipIdx.map fun p => (p.2, p.1)
 
 /-- `buildPatternRoutes`, flattened: routes of all HTTP methods in description order
-    (`iterate(method)` then filters by method, which is what the per-method map lists hold). -/
-def buildMethod (mk : RouteId → Bytes → Option Tmpl → List (Route RouteId)) (ti si mi : Nat) (m : MethodD) :
-    List (Route RouteId) :=
+    (`iterate(method)` then filters by method, which is what the per-method map lists hold).
+    `mk` turns one binding into zero or one table entries (`addBinding`; a failing `buildPattern` adds nothing). -/
+def buildMethod {β : Type} (mk : RouteId → Bytes → Option Tmpl → List β) (ti si mi : Nat) (m : MethodD) : List β :=
   if m.bindings.isEmpty then mk ⟨ti, si, mi, none⟩ post m.dflt
-  else (enum m.bindings).flatMap fun (bi, b) => mk ⟨ti, si, mi, some bi⟩ b.httpMethod b.pattern
+  else (enum m.bindings).flatMap fun p => mk ⟨ti, si, mi, some p.1⟩ p.2.httpMethod p.2.pattern
 
-def buildTarget (mk : RouteId → Bytes → Option Tmpl → List (Route RouteId)) (ti : Nat) (t : TargetD) :
-    List (Route RouteId) :=
-  (enum t.services).flatMap fun (si, s) => (enum s.methods).flatMap fun (mi, m) => buildMethod mk ti si mi m
+def buildTarget {β : Type} (mk : RouteId → Bytes → Option Tmpl → List β) (ti : Nat) (t : TargetD) : List β :=
+  (enum t.services).flatMap fun ps => (enum ps.2.methods).flatMap fun pm => buildMethod mk ti ps.1 pm.1 pm.2
 
 /-- the static table after `UpdateDesc` of each target once, in that order -/
-def buildTable (mk : RouteId → Bytes → Option Tmpl → List (Route RouteId)) (ts : List TargetD) :
-    List (Route RouteId) :=
-  (enum ts).flatMap fun (ti, t) => buildTarget mk ti t
+def buildTable {β : Type} (mk : RouteId → Bytes → Option Tmpl → List β) (ts : List TargetD) : List β :=
+  (enum ts).flatMap fun pt => buildTarget mk pt.1 pt.2
+
+/-- the table abstractly: (binding id, HTTP method, template) for every binding that yields a pattern -/
+def mkEntry (id : RouteId) (m : Bytes) (t : Option Tmpl) : List (RouteId × Bytes × Tmpl) :=
+  match t with
+  | none => []
+  | some t => if deepCount t.segs ≤ 1 then [(id, m, t)] else []
 
 end GB.C03
